@@ -1064,7 +1064,11 @@ func exec(c vh.Case, o *vh.Out) {
 				if !ok {
 					return "notdir"
 				}
-				_, err = dd.Mkdir(f[2])
+				if idx%2 == 0 {
+					_, err = dd.Mkdir(f[2])
+				} else {
+					_, err = dd.MkdirWithOpts(f[2])
+				}
 				return class(err)
 			}()
 			if d, cl := spec.walkDir(p.comps); cl != "ok" {
@@ -1439,6 +1443,7 @@ func exec(c vh.Case, o *vh.Out) {
 			o.Fail("fd-attachment", "op %d %q: descriptor on %s attached=%v, tree semantics alive=%v", idx, line, join(sfd.path), w.fdAtt, sfd.alive)
 			sfd.alive = w.fdAtt
 		}
+		fdWasAlive := sfd != nil && sfd.alive
 		if (f[0] == "fdflush" || f[0] == "fdclose") && sfd != nil {
 			// a flush of the descriptor must not undo a chmod/touch made since it was opened
 			vn, c1 := view.walk(sfd.path)
@@ -1471,6 +1476,15 @@ func exec(c vh.Case, o *vh.Out) {
 		}
 		if view.String() != viewMustBe.String() {
 			sig := "tree-" + f[0]
+			switch f[0] {
+			case "fdwrite", "fdtrunc":
+				// nothing reaches the tree before the descriptor is flushed
+				sig = "fd-unflushed-write-visible"
+			case "fdflush", "fdclose":
+				if !fdWasAlive {
+					sig = "fd-detached-flush-changed-tree"
+				}
+			}
 			if f[0] == "mv" {
 				src := parsePath(f[1])
 				if _, cl := view.walk(src.comps); cl == "ok" {
